@@ -36,6 +36,20 @@ R19.13 a handler of the serializer which tries the failed primitive again
        package: what dill really raises is out of reach (external, C code)
 R19.2  also runs a loop over a constant table of (modes, attribute, ..) rows
        row by row (VerifyModel._explore)
+R19.14 a payload value which an encoder reads back from a keyed store that
+       outlives the call (memo of the encoded function) is keyed by every
+       parameter the stored entry is made from, as it is (the parameter, a
+       tuple with it, id() of it): a key made from a part of the argument
+       (attribute, getattr, type) lets two arguments share an entry.  A store
+       local to the call, or written by every call before it is read, is no
+       memo.  The codec rules (R19.4/4b/9) see through the store
+R19.15 as_dict() of the typed dict classes is the radical.utils conversion or
+       an override which returns it on every path; a return of the instance
+       data / a copy of it is decided against the schemas of the class and its
+       subclasses: typed dicts as direct values are excluded only by a guard
+       `not any(isinstance(v, TypedDict) for v in data.values())`, typed dicts
+       inside lists / dicts (slots: [Slot], cores: [RO], services:
+       [TaskDescription]) by no test of the direct values
 """
 
 import ast
@@ -43,7 +57,8 @@ import ast
 from ..model import (walk, dotted, call_name, kwarg, unparse, short, UNKNOWN,
                      root_name, AnalysisError, calls_in, stores_in_target)
 from ..cfg import cfg_of
-from ..flow import Exploration, loop_slice, const_compare, must_pass
+from ..flow import (Exploration, loop_slice, const_compare, must_pass,
+                    guards)
 from .. import idioms as I
 
 TD   = ('task_description.py', 'TaskDescription')
@@ -1357,6 +1372,159 @@ def _fixed_value(e):
         isinstance(n, (ast.Name, ast.Call, ast.Attribute)) for n in walk(e))
 
 
+def _store_access(e):
+    """(container, key, inline value or None, how) if e reads one entry of a
+    keyed store: C[k], C.get(k), C.get(k, V), C.setdefault(k, V)"""
+    if isinstance(e, ast.Subscript) and isinstance(e.ctx, ast.Load) and \
+            not isinstance(e.slice, ast.Slice):
+        return e.value, e.slice, None, 'item'
+    if isinstance(e, ast.Call) and isinstance(e.func, ast.Attribute) and \
+            not e.keywords and not any(isinstance(a, ast.Starred)
+                                       for a in e.args):
+        if e.func.attr == 'get' and len(e.args) in (1, 2):
+            return (e.func.value, e.args[0],
+                    e.args[1] if len(e.args) == 2 else None, 'get')
+        if e.func.attr == 'setdefault' and len(e.args) == 2:
+            return e.func.value, e.args[0], e.args[1], 'setdefault'
+    return None
+
+
+def _store_id(f, e):
+    """identity of a container expression inside f: ('name', x) for a plain
+    name, ('attr', x) for an attribute of the class / instance the method
+    belongs to (cls.x, self.x, <Class>.x, type(self).x), else its text"""
+    if isinstance(e, ast.Name):
+        return ('name', e.id)
+    if isinstance(e, ast.Attribute):
+        top = f
+        while top.parent is not None:
+            top = top.parent
+        own = set()
+        if top.cls is not None:
+            own.add(top.cls.name)
+            if top.params and not any(
+                    isinstance(d, ast.Name) and d.id == 'staticmethod'
+                    for d in top.node.decorator_list):
+                own.add(top.params[0])
+        b = e.value
+        if isinstance(b, ast.Name) and b.id in own:
+            return ('attr', e.attr)
+        if isinstance(b, ast.Call) and isinstance(b.func, ast.Name) and \
+                b.func.id == 'type' and len(b.args) == 1 and \
+                isinstance(b.args[0], ast.Name) and b.args[0].id in own:
+            return ('attr', e.attr)
+        if isinstance(b, ast.Attribute) and b.attr == '__class__' and \
+                isinstance(b.value, ast.Name) and b.value.id in own:
+            return ('attr', e.attr)
+    return ('expr', unparse(e))
+
+
+def _subst_locals(e, names):
+    """e with the locals which are bound exactly once replaced by their
+    definition (a few rounds)"""
+    import copy
+    single = {k: v[0] for k, v in names.items() if len(v) == 1}
+    for _ in range(4):
+        if not any(isinstance(n, ast.Name) and n.id in single
+                   for n in ast.walk(e)):
+            break
+        e = _Sub(single).visit(copy.deepcopy(e))
+    return e
+
+
+def _same_key(a, b, names):
+    if unparse(a) == unparse(b):
+        return True
+    return unparse(_subst_locals(a, names)) == unparse(_subst_locals(b, names))
+
+
+def _key_alts(e, names, depth=0):
+    """the alternative values of a key expression, each as the list of the
+    expressions which the key carries AS THEY ARE (the key itself, the
+    definition of a local, the elements of a tuple, x of id(x)): two keys are
+    equal only if each of these is"""
+    if depth > 6:
+        return [[e]]
+    if isinstance(e, ast.Name) and e.id in names:
+        return [[e] + alt for d in names[e.id]
+                for alt in _key_alts(d, names, depth + 1)]
+    if isinstance(e, ast.IfExp):
+        return _key_alts(e.body, names, depth + 1) + \
+            _key_alts(e.orelse, names, depth + 1)
+    if isinstance(e, ast.Tuple):
+        alts = [[e]]
+        for x in e.elts:
+            alts = [a + b for a in alts
+                    for b in _key_alts(x, names, depth + 1)]
+        return alts[:64]
+    if isinstance(e, ast.Call) and isinstance(e.func, ast.Name) and \
+            e.func.id == 'id' and len(e.args) == 1 and not e.keywords:
+        return [[e] + alt for alt in _key_alts(e.args[0], names, depth + 1)]
+    return [[e]]
+
+
+def _not_in_key(v, elems, names, params):
+    """parameters which the stored value `v` is computed from other than
+    through one of the expressions the key carries"""
+    have = {unparse(x) for x in elems}
+    out = []
+
+    def visit(e, depth):
+        if unparse(e) in have:
+            return
+        if isinstance(e, ast.Name):
+            if e.id in params:
+                out.append(e.id)
+            elif e.id in names and depth < 6:
+                for d in names[e.id]:
+                    visit(d, depth + 1)
+            return
+        for c in ast.iter_child_nodes(e):
+            visit(c, depth)
+    visit(v, 0)
+    return sorted(set(out))
+
+
+def _store_outlives(f, cid):
+    """the container is not created by the call which reads it"""
+    kind, x = cid
+    if kind != 'name':
+        return True
+    if any(isinstance(n, (ast.Global, ast.Nonlocal)) and x in n.names
+           for n in walk(f.node)):
+        return True
+    return not any(isinstance(n, ast.Name) and n.id == x and
+                   isinstance(n.ctx, ast.Store) for n in walk(f.node))
+
+
+def memo_decide(f, memo, params):
+    """(verdict, detail): 'fresh' - every call stores the entry before it
+    reads it; 'local' - the container lives for one call; 'keyed' - the key
+    carries every parameter the entry is made from; ('coarse', parameters,
+    key, value) otherwise"""
+    names = memo['names']
+    if not _store_outlives(f, memo['cid']):
+        return 'local', None
+    g = cfg_of(f)
+    smap = I.stmt_node_map(g)
+    rn = smap.get(id(memo['read']))
+    refresh = [smap.get(id(fl['stmt'])) for fl in memo['fills']
+               if fl['refresh']]
+    if rn is not None and refresh and all(x is not None for x in refresh) \
+            and must_pass(g, g.entry.id, rn.id, [x.id for x in refresh]):
+        return 'fresh', None
+    for alt in _key_alts(memo['key'], names):
+        for fl in memo['fills']:
+            lost = _not_in_key(fl['value'], alt, names, params)
+            if lost:
+                if rn is None:
+                    raise Unrec('the read of `%s` is not a statement of %s'
+                                % (short(memo['cont'], 30), f.qual))
+                return 'coarse', (lost, _subst_locals(memo['key'], names),
+                                  fl['value'])
+    return 'keyed', None
+
+
 class Pipes:
     """pipelines of primitive codec operations applied to a source value"""
 
@@ -1364,6 +1532,7 @@ class Pipes:
         self.prog  = prog
         self._func = {}
         self.hoisted = []     # (inner func, name, outer func, ops)
+        self.memos   = []     # reads of a keyed store on the way to a source
 
     # environment of a function: single assignments, file handles
     def env(self, f):
@@ -1460,6 +1629,12 @@ class Pipes:
             pos = sources(expr.test)
             return self.pipe(f, expr.body if pos else expr.orelse, sources,
                              env, depth + 1)
+        acc = _store_access(expr)
+        if acc is not None:
+            fills = self.store_fills(f, acc)
+            if fills:
+                return self.store_read(f, expr, acc, fills, sources, env,
+                                       depth)
         if _fixed_value(expr):
             raise NoSource(expr, 'the literal `%s`' % short(expr, 30))
         if isinstance(expr, ast.Call):
@@ -1504,6 +1679,47 @@ class Pipes:
                                 % (callee.where, len(ps)))
                 return inner + list(list(ps)[0])
         raise Unrec('`%s`' % short(expr, 50))
+
+    # a value read from a keyed store (`C[k]`, `C.get(k)`, `C.setdefault(k,
+    # V)`) which the function fills itself: the pipeline of what is stored
+    def store_fills(self, f, acc):
+        cont, key, inline, how = acc
+        cid = _store_id(f, cont)
+        out = []
+        for n in walk(f.node):
+            if isinstance(n, ast.Assign):
+                for t in n.targets:
+                    if isinstance(t, ast.Subscript) and not isinstance(
+                            t.slice, ast.Slice) and \
+                            _store_id(f, t.value) == cid:
+                        out.append(dict(key=t.slice, value=n.value, stmt=n,
+                                        refresh=True))
+            elif isinstance(n, ast.Call) and isinstance(n.func, ast.Attribute) \
+                    and n.func.attr == 'setdefault' and len(n.args) == 2 and \
+                    not n.keywords and _store_id(f, n.func.value) == cid:
+                out.append(dict(key=n.args[0], value=n.args[1], stmt=n,
+                                refresh=False))
+        return out
+
+    def store_read(self, f, expr, acc, fills, sources, env, depth):
+        cont, key, inline, how = acc
+        names, files = env
+        vals = [fl['value'] for fl in fills]
+        if inline is not None and how == 'get':
+            vals.append(inline)
+        pipes = {tuple(self.pipe(f, v, sources, env, depth + 1)) for v in vals}
+        if len(pipes) != 1:
+            raise Unrec('the entries of `%s` are made in %d different ways'
+                        % (short(cont, 30), len(pipes)))
+        for fl in fills:
+            if not _same_key(key, fl['key'], names):
+                raise Unrec('`%s` is read under `%s` but filled under `%s`'
+                            % (short(cont, 30), short(key, 30),
+                               short(fl['key'], 30)))
+        self.memos.append(dict(f=f, read=expr, cont=cont, key=key,
+                               cid=_store_id(f, cont), fills=fills,
+                               names=names))
+        return list(list(pipes)[0])
 
     def func_pipes(self, f):
         """set of pipelines (tuples) a codec function applies to its first
@@ -1661,6 +1877,13 @@ def r19_4(prog, rep, rid='R19.4'):
              'the wrapper or another object of the program; two entries are '
              'not made from one parameter while another reaches none',
              minimum=8)
+    rep.rule('R19.14', 'a payload value which an encoder reads back from a '
+             'keyed store that outlives the call (a memo of the encoded '
+             'function) is stored under a key which carries every parameter '
+             'the entry is made from as it is (the parameter, a tuple with '
+             'it, id() of it) - a key computed from a part of the argument '
+             '(an attribute, getattr, type, a name) lets two different '
+             'arguments share the entry of the first', minimum=6)
     P = Pipes(prog)
     ser = prog.module(SER)
     # (d) primitives
@@ -1832,9 +2055,12 @@ def r19_4(prog, rep, rid='R19.4'):
                        % (f.qual, k), f.loc(lit))
                 rep.ok('R19.9', f, '%s: key %r has no counterpart'
                        % (f.qual, k), f.loc(lit))
+                rep.ok('R19.14', f, '%s: key %r has no counterpart'
+                       % (f.qual, k), f.loc(lit))
                 continue
             v = values[k]
             P.hoisted = []
+            P.memos = []
             hits = carried.setdefault(k, [])
             try:
                 ek = P.pipe(f, v, lambda e: isinstance(e, ast.Name)
@@ -1857,7 +2083,7 @@ def r19_4(prog, rep, rid='R19.4'):
                         }.get(k, "%s with %s set (e.g. {'y': 5} / (1, 2)): "
                               "the decoded %s is %s, the call runs without "
                               "the caller's %s" % (f.qual, k, k, e.why, k)))
-                for r2 in (rid, rid, 'R19.4b'):
+                for r2 in (rid, rid, 'R19.4b', 'R19.14'):
                     rep.ok(r2, f, '%s: value of %r is not computed from a '
                            'parameter (see R19.9)' % (f.qual, k), f.loc(v))
                 continue
@@ -1867,6 +2093,7 @@ def r19_4(prog, rep, rid='R19.4'):
             hoisted = list(P.hoisted)
             rep.ok('R19.9', f, '%s: value of %r is computed from a parameter '
                    'of the encoder' % (f.qual, k), f.loc(v))
+            _memo_obligation(rep, f, k, v, list(P.memos), params)
             rep.check(not hoisted, 'R19.4b', f,
                       '%s: the value of %r is encoded when the payload is '
                       'built' % (f.qual, k), construct='%s: encoded outside'
@@ -1928,6 +2155,54 @@ def r19_4(prog, rep, rid='R19.4'):
                       'task fails although f is fine' % (
                           k, k, short(unpack[1], 40) if unpack else ''))
         _distinct_sources(rep, f, carried, params, lit)
+
+
+def _memo_obligation(rep, f, k, v, memos, params, rid='R19.14'):
+    """the payload value v (key k) of encoder f was resolved through the
+    reads `memos` of keyed stores"""
+    if not memos:
+        rep.ok(rid, f, '%s: the value of %r is computed by the call which '
+               'builds the payload, no store is read' % (f.qual, k), f.loc(v))
+        return
+    bad = None
+    notes = []
+    for m in memos:
+        try:
+            verdict, detail = memo_decide(m['f'], m, params)
+        except Unrec as e:
+            raise AnalysisError('UNRECOGNISED-IDIOM %s: value of %r in the '
+                                'payload: %s' % (f.where, k, e))
+        notes.append('`%s` %s' % (short(m['read'], 30), {
+            'local': 'lives for this call only',
+            'fresh': 'is stored by every call before it is read',
+            'keyed': 'is keyed by the parameters its entries are made from',
+            'coarse': 'is keyed too coarsely'}[verdict]))
+        if verdict == 'coarse' and bad is None:
+            bad = (m, detail)
+    m, (lost, key, val) = bad if bad else (memos[0], ((), None, None))
+    rep.check(bad is None, rid, f,
+              '%s: value of %r: %s' % (f.qual, k, '; '.join(notes)),
+              construct='%s: memo key' % k,
+              message='%s takes the payload value %r from the store `%s`, '
+              'which outlives the call and is filled only when the key is '
+              'new, under the key `%s`; the entry `%s` is made from the '
+              'parameter%s %s, which that key does not carry as %s: two '
+              'different arguments with an equal key (for a key made from an '
+              'attribute of a callable such as __code__ / __name__: closures '
+              'of one factory, functions which differ in defaults or cells, '
+              'bound methods of two instances) share one entry, and every '
+              'later payload carries the encoded value of the FIRST argument'
+              % (f.qual, k, short(m['cont'], 40),
+                 short(key, 60) if key is not None else '',
+                 short(val, 50) if val is not None else '',
+                 's' if len(lost) > 1 else '', ', '.join(map(repr, lost)),
+                 'they are' if len(lost) > 1 else 'it is'),
+              loc=f.loc(v),
+              history='def scale(n): return lambda x: x * n; '
+              '%s(scale(2), (3,)) then %s(scale(5), (3,)) in one process: '
+              'both closures have the same key, get_func_attr of the second '
+              'payload returns the first closure and the task computes 6 '
+              'instead of 15' % (f.qual.split('.')[0], f.qual.split('.')[0]))
 
 
 def _distinct_sources(rep, f, carried, params, lit):
@@ -3424,6 +3699,298 @@ def _independent_kinds(rep, f, cname, runs, rid='R19.11'):
 
 
 # ------------------------------------------------------------------------------
+# R19.15  as_dict() overrides of the typed dict classes
+#
+def _ext_typed_base(prog, c):
+    """c derives (inside the package: transitively) from a TypedDict which is
+    not a class of the package (radical.utils)"""
+    for k in prog.mro(c):
+        for b in k.node.bases:
+            r = prog.resolve(k.module, b)
+            if r and r[0] == 'ext' and r[1].split('.')[-1] == 'TypedDict':
+                return True
+    return False
+
+
+def typed_witnesses(prog, c, family):
+    """schema entries of c and of the classes below it which hold typed
+    dicts: (class, key, 'direct' | 'nested', type name)"""
+    out = []
+    for k in prog.subclasses(c):
+        sch = k.consts.get('_schema')
+        if not isinstance(sch, ast.Dict):
+            continue
+        for kn, vn in zip(sch.keys, sch.values):
+            if kn is None:
+                continue
+            key = fold_name(prog, k.module, kn, k)
+            key = unparse(kn) if key is UNKNOWN else key
+            for n in walk(vn):
+                if not isinstance(n, (ast.Name, ast.Attribute)):
+                    continue
+                r = prog.resolve(k.module, n)
+                if r and r[0] == 'class' and r[1] in family:
+                    out.append((k, key, 'direct' if n is vn else 'nested',
+                                r[1].name, unparse(vn)))
+    return sorted(out, key=lambda w: (w[0].where, str(w[1])))
+
+
+class _DictView:
+    """what an as_dict() override returns: 'deep' - the conversion of the
+    base class (super().as_dict / radical.utils as_dict: typed dicts at any
+    depth become plain dicts), possibly changed afterwards; 'raw' - the data
+    of the instance or a copy of it (nested values as they are)"""
+
+    def __init__(self, prog, f):
+        self.prog, self.f = prog, f
+        self.me = f.params[0] if f.params else 'self'
+        self.names = {}
+        for n in walk(f.node):
+            if isinstance(n, ast.Assign) and len(n.targets) == 1 and \
+                    isinstance(n.targets[0], ast.Name):
+                self.names.setdefault(n.targets[0].id, []).append(n.value)
+        self.other = set()       # names bound in another way
+        for n in walk(f.node):
+            if isinstance(n, ast.Name) and isinstance(n.ctx, ast.Store) and \
+                    n.id not in self.names:
+                self.other.add(n.id)
+
+    def is_data(self, e, depth=0):
+        """the mapping which holds the values of the instance"""
+        if depth > 5:
+            return False
+        if isinstance(e, ast.Name):
+            if e.id == self.me:
+                return True
+            ds = self.names.get(e.id)
+            return bool(ds) and e.id not in self.other and all(
+                self.is_data(d, depth + 1) for d in ds)
+        if isinstance(e, ast.Attribute) and e.attr in ('_data', '__dict__') \
+                and isinstance(e.value, ast.Name) and e.value.id == self.me:
+            return True
+        return False
+
+    def _deep_call(self, e):
+        if not (isinstance(e, ast.Call) and
+                isinstance(e.func, (ast.Attribute, ast.Name))):
+            return False
+        fn = e.func
+        if isinstance(fn, ast.Attribute) and fn.attr == 'as_dict':
+            b = fn.value
+            if isinstance(b, ast.Call) and isinstance(b.func, ast.Name) and \
+                    b.func.id == 'super':
+                return True
+        r = self.prog.resolve(self.f.module, fn)
+        if r and r[0] == 'ext' and r[1].split('.')[-1] == 'as_dict':
+            return True
+        return False
+
+    def view(self, e, depth=0):
+        if depth > 6 or e is None:
+            raise Unrec('`%s`' % (short(e, 40) if e is not None else 'None'))
+        if self._deep_call(e):
+            return 'deep'
+        if self.is_data(e):
+            return 'raw'
+        if isinstance(e, ast.Name):
+            ds = self.names.get(e.id)
+            if not ds or e.id in self.other or e.id in self.f.params:
+                raise Unrec('`%s` is not bound by plain assignments' % e.id)
+            vs = {self.view(d, depth + 1) for d in ds}
+            if len(vs) != 1:
+                raise Unrec('`%s` is bound to the converted and to the raw '
+                            'data' % e.id)
+            return list(vs)[0]
+        if isinstance(e, ast.Call):
+            fn = e.func
+            name = dotted(fn)
+            if name in ('dict', 'copy.copy', 'copy.deepcopy', 'copy',
+                        'deepcopy') and len(e.args) == 1 and not e.keywords:
+                return self.view(e.args[0], depth + 1)
+            if isinstance(fn, ast.Attribute) and fn.attr in ('copy', 'items') \
+                    and not e.args and not e.keywords:
+                return self.view(fn.value, depth + 1)
+        if isinstance(e, ast.Dict) and len(e.keys) == 1 and e.keys[0] is None:
+            return self.view(e.values[0], depth + 1)
+        if isinstance(e, ast.DictComp) and len(e.generators) == 1 and \
+                not e.generators[0].ifs:
+            gen = e.generators[0]
+            it = gen.iter
+            if isinstance(it, ast.Call) and isinstance(it.func, ast.Attribute) \
+                    and it.func.attr == 'items' and not it.args and \
+                    isinstance(gen.target, ast.Tuple) and \
+                    len(gen.target.elts) == 2 and all(
+                        isinstance(x, ast.Name) for x in gen.target.elts):
+                src = self.view(it.func.value, depth + 1)
+                kn, vn = [x.id for x in gen.target.elts]
+                if isinstance(e.key, ast.Name) and e.key.id == kn:
+                    if isinstance(e.value, ast.Name) and e.value.id == vn:
+                        return src
+                    if self._deep_call(e.value) and e.value.args and \
+                            isinstance(e.value.args[0], ast.Name) and \
+                            e.value.args[0].id == vn:
+                        return 'deep'
+        raise Unrec('`%s`' % short(e, 50))
+
+
+def _direct_typed_test(prog, f, atom, pol, dv, family):
+    """the guard says: no DIRECT value of the data is a typed dict
+    (`not any(isinstance(v, TypedDict) for v in data.values())`, all(not ..),
+    items() with the value variable)"""
+    if not (isinstance(atom, ast.Call) and isinstance(atom.func, ast.Name) and
+            atom.func.id in ('any', 'all') and len(atom.args) == 1 and
+            isinstance(atom.args[0], (ast.GeneratorExp, ast.ListComp)) and
+            len(atom.args[0].generators) == 1 and
+            not atom.args[0].generators[0].ifs):
+        return False
+    gen = atom.args[0].generators[0]
+    it = gen.iter
+    if not (isinstance(it, ast.Call) and isinstance(it.func, ast.Attribute)
+            and not it.args and dv.is_data(it.func.value)):
+        return False
+    if it.func.attr == 'values' and isinstance(gen.target, ast.Name):
+        var = gen.target.id
+    elif it.func.attr == 'items' and isinstance(gen.target, ast.Tuple) and \
+            len(gen.target.elts) == 2 and \
+            isinstance(gen.target.elts[1], ast.Name):
+        var = gen.target.elts[1].id
+    else:
+        return False
+    elt = atom.args[0].elt
+    neg = False
+    if isinstance(elt, ast.UnaryOp) and isinstance(elt.op, ast.Not):
+        elt, neg = elt.operand, True
+    if not (isinstance(elt, ast.Call) and isinstance(elt.func, ast.Name) and
+            elt.func.id == 'isinstance' and len(elt.args) == 2 and
+            isinstance(elt.args[0], ast.Name) and elt.args[0].id == var):
+        return False
+    types = elt.args[1].elts if isinstance(elt.args[1], ast.Tuple) \
+        else [elt.args[1]]
+    root = False
+    for t in types:
+        r = prog.resolve(f.module, t)
+        if r and r[0] == 'ext' and r[1].split('.')[-1] == 'TypedDict':
+            root = True
+        if r and r[0] == 'class' and all(r[1] in prog.mro(k)
+                                         for k in family):
+            root = True
+    if not root:
+        return False
+    # not any(isinstance) / all(not isinstance)
+    return (atom.func.id == 'any' and not neg and not pol) or \
+        (atom.func.id == 'all' and neg and pol)
+
+
+def r19_15(prog, rep, rid='R19.15'):
+    rep.rule(rid, 'as_dict() of the description classes (TaskDescription, '
+             'PilotDescription, Slot, RO and every other typed dict class of '
+             'the package) is the conversion of radical.utils, or an override '
+             'which returns that conversion on every path; an override which '
+             'returns the data of the instance (or a copy of it) is plain only '
+             'if no schema below that class holds typed dicts which the guard '
+             'of that return does not exclude (a test of the direct values '
+             'does not see typed dicts inside lists / dicts)', minimum=5)
+    family = [c for c in prog.all_classes() if _ext_typed_base(prog, c)]
+    anchors = [prog.cls(*TD), prog.cls(*PD), prog.cls(RC, 'Slot'),
+               prog.cls(RC, 'RO')]
+    for c in anchors:
+        if c not in family:
+            raise AnalysisError('UNRECOGNISED-IDIOM %s does not derive from '
+                                'the TypedDict of radical.utils' % c.where)
+    todo = []
+    for c in anchors:
+        f = prog.find_method(c, 'as_dict')
+        if f is None:
+            rep.ok(rid, c.where, '%s.as_dict is the conversion of '
+                   'radical.utils TypedDict (typed dicts at any depth become '
+                   'plain dicts)' % c.name, '%s' % c.where)
+            continue
+        rep.ok(rid, c.where, '%s.as_dict is the override %s, decided there'
+               % (c.name, f.qual), f.loc())
+        if f not in todo:
+            todo.append(f)
+    for c in sorted(family, key=lambda k: k.where):
+        f = c.methods.get('as_dict')
+        if f is not None and f not in todo:
+            todo.append(f)
+    for f in todo:
+        rep.saw(f)
+        _as_dict_override(prog, rep, rid, f, family)
+
+
+def _as_dict_override(prog, rep, rid, f, family):
+    dv = _DictView(prog, f)
+    g = cfg_of(f)
+    rets = [n for n in g.nodes if n.kind == 'stmt' and
+            isinstance(n.ast, ast.Return)]
+    if not rets:
+        raise AnalysisError('UNRECOGNISED-IDIOM %s returns nothing' % f.where)
+    wit = typed_witnesses(prog, f.cls, family)
+    for n in rets:
+        try:
+            view = dv.view(n.ast.value)
+        except Unrec as e:
+            raise AnalysisError('UNRECOGNISED-IDIOM %s: what `%s` returns: %s'
+                                % (f.where, short(n.ast, 50), e))
+        if view == 'deep':
+            rep.ok(rid, f, '%s: `%s` hands back the conversion of the base '
+                   'class' % (f.qual, short(n.ast, 40)), f.loc(n.ast))
+            continue
+        # the raw data: which typed values may it still hold here?
+        direct_excluded, empty = False, False
+        for tid, lab in guards(g, n.id):
+            atom, pol = g.nodes[tid].ast, lab == 'T'
+            if dv.is_data(atom):
+                empty = empty or not pol
+                continue
+            if _direct_typed_test(prog, f, atom, pol, dv, family):
+                direct_excluded = True
+                continue
+            reads = {x.id for x in walk(atom) if isinstance(x, ast.Name)}
+            if not any(isinstance(x, ast.Call) for x in walk(atom)) and \
+                    reads and reads <= set(f.params[1:]):
+                continue           # a test of the arguments only
+            raise AnalysisError('UNRECOGNISED-IDIOM %s: `%s` is returned '
+                                'under `%s`: cannot decide what that test '
+                                'says about the values' % (
+                                    f.where, short(n.ast.value, 40),
+                                    short(atom, 50)))
+        left = [] if empty else [w for w in wit if w[2] == 'nested' or
+                                 not direct_excluded]
+        w = left[0] if left else None
+        rep.check(not left, rid, f,
+                  '%s: `%s` hands back the data as it is, and no schema of '
+                  '%s or below holds typed dicts%s' % (
+                      f.qual, short(n.ast, 40), f.cls.name,
+                      ' other than as direct values, which the guard excludes'
+                      if direct_excluded else ''),
+                  construct='raw data returned',
+                  message='%s returns `%s` (the data of the instance, nested '
+                  'values as they are) %s; %s.%s is declared `%s` in the '
+                  'schema (and %d more such entries in %s and its subclasses)'
+                  ': the %s objects %s stay typed dicts in the result. '
+                  'as_dict() is then not a plain dictionary: a typed dict is '
+                  'a dict subclass whose own dict is empty, json / msgpack '
+                  'write it as {} and the description built from the '
+                  'transported dictionary has lost these values' % (
+                      f.qual, short(n.ast.value, 40),
+                      'under a guard which looks at the direct values only'
+                      if direct_excluded else 'without asking whether values '
+                      'are typed dicts',
+                      w[0].name if w else '', w[1] if w else '',
+                      w[4] if w else '', max(len(left) - 1, 0), f.cls.name,
+                      w[3] if w else '',
+                      'inside that container' if w and w[2] == 'nested'
+                      else ''),
+                  loc=f.loc(n.ast),
+                  history='%s with %s set to %s objects: as_dict() keeps them '
+                  'as typed dicts, after json / msgpack transport they are '
+                  '{} - the %s from the wire has lost them' % (
+                      w[0].name if w else '', w[1] if w else '',
+                      w[3] if w else '', w[0].name if w else ''))
+
+
+# ------------------------------------------------------------------------------
 # R19.3  information
 #
 def r19_3(prog, rep, rid='R19.3'):
@@ -3463,12 +4030,19 @@ def run(prog, rep, tier):
         'other; a slot converter returns its input list as it is only when '
         'a test on the whole list says so; the handler of serialize_obj '
         'which provides the by-reference fallback is as broad as the '
-        'handler which gives up on that fallback.')
+        'handler which gives up on that fallback; an encoded function which '
+        'an encoder keeps in a store across calls is keyed by the callable '
+        'itself; every as_dict() override of a typed dict class returns the '
+        'radical.utils conversion, or the raw data only where no schema '
+        'below it holds typed dicts the guard does not exclude.')
     rep.undecided = ('equality of values after a round trip through '
         'as_dict()/constructor (radical.utils TypedDict is trusted); '
         'pickling of arbitrary callables; numeric conversions (float()) of '
         'deprecated values.')
     rep.assumptions = [
+        'a memo keyed by the callable itself is accepted (what the callable '
+        'captures by value is then the state at the first call); id(x) is '
+        'taken as carrying x',
         'radical.utils TypedDict honours _schema/_defaults: as_dict() carries '
         'every key with a default, verify() refuses keys outside the schema',
         'dill/pickle dumps<->loads, codecs base64 encode<->decode and '
@@ -3499,6 +4073,7 @@ def run(prog, rep, tier):
     r19_12(prog, rep)
     r19_13(prog, rep)
     rep.attempt(r19_7, prog, rep)
+    r19_15(prog, rep)
     if tier == 'thorough':
         r19_3(prog, rep)
 
@@ -4106,4 +4681,73 @@ SILENT += [
     dict(name='attempts as a loop over the option sets with one handler', edits=[
         (_S, _SER_TRY + _SER_H1 + _SER_H2,
              "    last = None\n    for kw in ({} if callable(obj) else {'recurse': True}, {'byref': True}):\n        try:\n            return dill.dumps(obj, **kw)\n        except Exception as e:\n            last = e\n    raise SerializationError(\"Failed to serialize object\", last) from last\n")]),
+]
+
+
+# ------------------------------------------------------------------------------
+# round 6: R19.14 (memo of the encoded function), R19.15 (as_dict overrides)
+#
+_Y_CLS   = "class PythonTask(object):\n"
+_Y_TASK  = "        task = {'func'  : serialize_obj(func),\n"
+_Y_DTASK = "            task = {'func'  : serialize_obj(f),\n"
+_M_DEEP  = "    _deep = False\n"
+_R_RO    = "        OCCUPATION: None,\n    }\n"
+_R_SLOT  = "    VERSION     = 'version'  # use this to distinguish from old slot structure\n"
+_T_VER   = "    def _verify(self):\n"
+
+MUTATIONS += [
+    dict(name='R19.14 seed C19-i4: serialized function cached under its code object', rules=('R19.14',), edits=[
+        (_Y, _Y_CLS, _Y_CLS + "\n    _func_cache = dict()\n"),
+        (_Y, _Y_TASK, "        key = getattr(func, '__code__', func)\n        if key not in cls._func_cache:\n            cls._func_cache[key] = serialize_obj(func)\n\n        task = {'func'  : cls._func_cache[key],\n")]),
+    dict(name='R19.14 memo keyed by the qualified name, filled with setdefault', rules=('R19.14',), edits=[
+        (_Y, _Y_CLS, _Y_CLS + "\n    _blobs = {}\n"),
+        (_Y, _Y_TASK, "        task = {'func'  : cls._blobs.setdefault(func.__qualname__, serialize_obj(func)),\n")]),
+    dict(name='R19.14 sibling: decorator keeps the encoded function in a module table by name', rules=('R19.14',), edits=[
+        (_Y, _Y_CLS, "_ENCODED = dict()\n\n\n" + _Y_CLS),
+        (_Y, _Y_DTASK, "            if f.__name__ not in _ENCODED:\n                _ENCODED[f.__name__] = serialize_obj(f)\n\n            task = {'func'  : _ENCODED[f.__name__],\n")]),
+    dict(name='R19.14 memo keyed by (type, name) of the callable, read with get()', rules=('R19.14',), edits=[
+        (_Y, _Y_CLS, _Y_CLS + "\n    _func_cache = dict()\n"),
+        (_Y, _Y_TASK, "        key = (type(func), getattr(func, '__name__', None))\n        if PythonTask._func_cache.get(key) is None:\n            PythonTask._func_cache[key] = serialize_obj(func)\n\n        task = {'func'  : PythonTask._func_cache.get(key),\n")]),
+    dict(name='R19.14 memo keyed by the code object or, without one, by the callable (two assignments)', rules=('R19.14',), edits=[
+        (_Y, _Y_CLS, _Y_CLS + "\n    _func_cache = dict()\n"),
+        (_Y, _Y_TASK, "        key = func\n        if hasattr(func, '__code__'):\n            key = func.__code__\n        if key not in cls._func_cache:\n            cls._func_cache[key] = serialize_obj(func)\n\n        task = {'func'  : cls._func_cache[key],\n")]),
+    dict(name='R19.15 seed C19-i6: FastTypedDict.as_dict fast path looks at the direct values', rules=('R19.15',), edits=[
+        (_M, _M_DEEP, _M_DEEP + "\n    def as_dict(self, _annotate=False):\n\n        # fast path: w/o nested typed dicts there is nothing to recurse into\n        data = self._data\n        if not _annotate and \\\n           not any(isinstance(v, ru.TypedDict) for v in data.values()):\n            return dict(data)\n\n        return super().as_dict(_annotate=_annotate)\n")]),
+    dict(name='R19.15 TaskDescription.as_dict returns a shallow copy of the data', rules=('R19.15',), edits=[
+        (_T, _T_VER, "    def as_dict(self, _annotate=False):\n\n        return dict(self._data)\n\n\n" + _T_VER)]),
+    dict(name='R19.15 sibling: Slot.as_dict fast path, slow path first, all(not isinstance) and copy()', rules=('R19.15',), edits=[
+        (RC, _R_SLOT, _R_SLOT + "\n    def as_dict(self, _annotate=False):\n\n        if _annotate or not all(not isinstance(v, FastTypedDict)\n                                for v in self._data.values()):\n            return super().as_dict(_annotate=_annotate)\n\n        return self._data.copy()\n")]),
+    dict(name='R19.15 fast path over items() which rebuilds the dictionary value by value', rules=('R19.15',), edits=[
+        (_M, _M_DEEP, _M_DEEP + "\n    def as_dict(self, _annotate=False):\n\n        if not any(isinstance(v, ru.TypedDict) for k, v in self._data.items()):\n            return {k: v for k, v in self._data.items()}\n\n        return super().as_dict(_annotate=_annotate)\n")]),
+]
+
+SILENT += [
+    # R19.14
+    dict(name='encoded function memoised under the callable itself', edits=[
+        (_Y, _Y_CLS, _Y_CLS + "\n    _func_cache = dict()\n"),
+        (_Y, _Y_TASK, "        if func not in cls._func_cache:\n            cls._func_cache[func] = serialize_obj(func)\n\n        task = {'func'  : cls._func_cache[func],\n")]),
+    dict(name='encoded function memoised under (id, callable) through a local key', edits=[
+        (_Y, _Y_CLS, _Y_CLS + "\n    _func_cache = dict()\n"),
+        (_Y, _Y_TASK, "        key = (id(func), func)\n        if key not in cls._func_cache:\n            cls._func_cache[key] = serialize_obj(func)\n\n        task = {'func'  : cls._func_cache[key],\n")]),
+    dict(name='class level store written by every call before it is read (coarse key, no memo)', edits=[
+        (_Y, _Y_CLS, _Y_CLS + "\n    _last = dict()\n"),
+        (_Y, _Y_TASK, "        kind = type(func)\n        cls._last[kind] = serialize_obj(func)\n\n        task = {'func'  : cls._last[kind],\n")]),
+    dict(name='payload parts collected in a dictionary which lives for one call', edits=[
+        (_Y, _Y_TASK, "        parts = dict()\n        parts['f'] = serialize_obj(func)\n\n        task = {'func'  : parts['f'],\n")]),
+    dict(name='decorator memoises the encoded function under the function itself in a module table', edits=[
+        (_Y, _Y_CLS, "_ENCODED = dict()\n\n\n" + _Y_CLS),
+        (_Y, _Y_DTASK, "            if f not in _ENCODED:\n                _ENCODED[f] = serialize_obj(f)\n\n            task = {'func'  : _ENCODED[f],\n")]),
+    # R19.15
+    dict(name='FastTypedDict.as_dict override which delegates to the base class', edits=[
+        (_M, _M_DEEP, _M_DEEP + "\n    def as_dict(self, _annotate=False):\n\n        return super().as_dict(_annotate=_annotate)\n")]),
+    dict(name='FastTypedDict.as_dict override through a local', edits=[
+        (_M, _M_DEEP, _M_DEEP + "\n    def as_dict(self, _annotate=False):\n\n        ret = super().as_dict(_annotate=_annotate)\n        return ret\n")]),
+    dict(name='FastTypedDict.as_dict converts value by value with ru.as_dict', edits=[
+        (_M, _M_DEEP, _M_DEEP + "\n    def as_dict(self, _annotate=False):\n\n        if _annotate:\n            return super().as_dict(_annotate=True)\n\n        return {k: ru.as_dict(v) for k, v in self._data.items()}\n")]),
+    dict(name='RO.as_dict fast path: a resource occupation holds no typed dicts', edits=[
+        (RC, _R_RO, _R_RO + "\n    def as_dict(self, _annotate=False):\n\n        if not _annotate:\n            return dict(self._data)\n\n        return super().as_dict(_annotate=_annotate)\n")]),
+    dict(name='FastTypedDict.as_dict fast path for an empty description', edits=[
+        (_M, _M_DEEP, _M_DEEP + "\n    def as_dict(self, _annotate=False):\n\n        data = self._data\n        if not data:\n            return dict(data)\n\n        return super().as_dict(_annotate=_annotate)\n")]),
+    dict(name='seed C19-i6 fast path on RaptorConfig only (plain values, no subclasses)', edits=[
+        (RC, "        RAPTOR_HB_FREQUENCY: 1000,\n    }\n", "        RAPTOR_HB_FREQUENCY: 1000,\n    }\n\n    def as_dict(self, _annotate=False):\n\n        data = self._data\n        if not _annotate and \\\n           not any(isinstance(v, FastTypedDict) for v in data.values()):\n            return dict(data)\n\n        return super().as_dict(_annotate=_annotate)\n")]),
 ]
